@@ -546,9 +546,8 @@ func (txn *Txn) Get(key []byte) (item *Item, rerr error) {
 	}
 	defer vs.DecrRef()
 
-	if vs.Value == nil && vs.Meta == 0 {
-		return nil, utils.ErrKeyNotFound
-	}
+	// A missing key is reported by loadBorrowedEntry; an entry that was found with an
+	// empty value is a live value (tables hand an empty value back as a nil slice).
 	if isDeletedOrExpired(vs.Meta, vs.ExpiresAt) {
 		return nil, utils.ErrKeyNotFound
 	}
